@@ -980,11 +980,11 @@ pub fn run(ctx: &mut Ctx) {
                     let class = if sc.prefix.find_byteset(b"*?[\\").is_some() && mshape.iter().any(|d| !d.magic.contains('T')) {
                         // the current directory becomes part of the glob pattern; decides first as it affects every relative spec
                         "cwd-with-glob-characters".to_string()
-                    } else if all_exclude && !sc.prefix.is_empty() {
-                        "exclude-only-list".to_string()
                     } else if mshape.iter().any(|d| d.magic.contains('T') && (d.pat.contains('u') || d.pat.contains('c'))) {
                         // git takes the path of a `top` pathspec verbatim, without resolving `.` and `..`
                         "top-with-dot-components".to_string()
+                    } else if all_exclude && !sc.prefix.is_empty() {
+                        "exclude-only-list".to_string()
                     } else if minimal.iter().any(|s| resolves_to_root(&s.text, &sc.prefix)) {
                         "path-resolves-to-worktree-root".to_string()
                     } else if minimal.iter().any(|s| icase_path_is_cwd_or_ancestor(&s.text, &sc.prefix)) {
